@@ -126,6 +126,24 @@ Lemma len_one x : len [x] = 1.
 Proof. reflexivity. Qed.
 Ltac lens := rewrite ?len_app, ?enc_len, ?len_one, ?len_nil.
 
+Lemma num_bytes_char_len c : tchar c = true -> utf8_num_bytes_char c = cp_len c.
+Proof.
+  intros H. apply tchar_range in H. unfold utf8_num_bytes_char, cp_len.
+  repeat match goal with |- context [if ?g then _ else _] => destruct g eqn:?; try lia end.
+Qed.
+
+Lemma blit_gen l off d : 0 <= off -> off + len d <= len l ->
+  blit l off d = Ok (firstn (Z.to_nat off) l ++ d ++ skipn (Z.to_nat (off + len d)) l).
+Proof. intros H1 H2. unfold blit. destruct ((off <? 0) || (len l <? off + len d)) eqn:G; [lia|reflexivity]. Qed.
+
+(* giving back the tail of a block *)
+Lemma realloc_shrink a j : realloc (a ++ j) (len a) = a.
+Proof.
+  unfold realloc. rewrite firstn_len_app.
+  replace (Z.to_nat (len a) - length (a ++ j))%nat with 0%nat by (rewrite app_length; unfold len; lia).
+  cbn [repeat]. apply app_nil_r.
+Qed.
+
 Lemma skipn_S_of (k : nat) (l : list Z) x rest : skipn k l = x :: rest -> skipn (S k) l = rest.
 Proof.
   revert l. induction k as [|k IH]; intros l H.
@@ -141,8 +159,8 @@ Section WithCodec.
 
   Lemma char_to_string_tmp c : tchar c = true -> utf8_char_to_string enc c = Ok (cp_len c, utf8_enc c).
   Proof.
-    intros H. unfold utf8_char_to_string. rewrite enc_ok by exact H. rewrite enc_len.
-    pose proof (cp_len_pos c). case_if. reflexivity.
+    intros H. unfold utf8_char_to_string. rewrite (num_bytes_char_len c H). pose proof (cp_len_pos c). case_if.
+    rewrite enc_ok by exact H. rewrite enc_len. case_if. reflexivity.
   Qed.
 
   (* where the index loop stops on a represented text *)
@@ -192,10 +210,9 @@ Section WithCodec.
   (* common part: the position found by the index loop, the old and the new character *)
   Lemma replace_char_repr s cs ch i :
     repr s cs -> tchar ch = true ->
-    (forall old, s_index cs i = Ok old -> cp_len old <= cp_len ch) ->
     rres (replace_char_in_string enc s ch i) (s_replace cs ch i).
   Proof.
-    intros H Hch Hgrow. unfold replace_char_in_string, s_replace.
+    intros H Hch. unfold replace_char_in_string, s_replace.
     destruct (i <? 1) eqn:I1; [replace ((1 <=? i) && (i <=? clen cs)) with false by lia; exact I|].
     destruct cs as [|c cs].
     { rewrite (repr_nil _ H). unfold empty_string. cbn [cap bytes]. replace ((0 <? i) || (0 <=? 1)) with true by lia.
@@ -219,9 +236,6 @@ Section WithCodec.
       { rewrite <- (firstn_skipn k (c :: cs)) in T. apply tchars_app in T. apply T. }
       apply tchars_cons in Tx as Tx'. destruct Tx' as [Hx Trest].
       assert (Hcs : c :: cs = firstn k (c :: cs) ++ x :: rest) by (rewrite <- Sk; symmetry; apply firstn_skipn).
-      assert (Hold : cp_len x <= cp_len ch).
-      { apply Hgrow. unfold s_index. replace ((1 <=? i) && (i <=? clen (c :: cs))) with true by (unfold clen; lia).
-        fold k. rewrite N. reflexivity. }
       replace ((1 <=? i) && (i <=? clen (c :: cs))) with true by (unfold clen; lia).
       replace (Z.to_nat i) with (S k) by lia.
       assert (Hskip : skipn (S k) (c :: cs) = rest).
@@ -251,8 +265,32 @@ Section WithCodec.
         apply repr_intro; auto.
         * rewrite E_app, E_cons, <- !app_assoc. reflexivity.
         * lens. lia.
-      + (* wider: a new block of the right capacity *)
-        case_if.
+      + destruct (cp_len ch <? cp_len x) eqn:LT.
+        { (* narrower: written in place, the tail moved down, the surplus bytes given back *)
+          set (o1 := firstn (Z.to_nat (cp_len ch)) (utf8_enc x)). set (o2 := skipn (Z.to_nat (cp_len ch)) (utf8_enc x)).
+          assert (Ho : utf8_enc x = o1 ++ o2) by (symmetry; apply firstn_skipn).
+          assert (Lo1 : len o1 = cp_len ch).
+          { unfold o1, len. rewrite firstn_length_le; [lia|]. pose proof (enc_len x). unfold len in *. lia. }
+          assert (Lo2 : len o2 = cp_len x - cp_len ch).
+          { pose proof (enc_len x) as EL. rewrite Ho, len_app in EL. lia. }
+          rewrite Ho, <- (app_assoc o1 o2).
+          rewrite blit_app by (lens; lia). cbn [bind].
+          replace (E pre ++ utf8_enc ch ++ o2 ++ E rest ++ [0]) with ((E pre ++ utf8_enc ch ++ o2) ++ (E rest ++ [0]) ++ [])
+            by (rewrite app_nil_r, <- !app_assoc; reflexivity).
+          replace (len (E pre) + cp_len x) with (len (E pre ++ utf8_enc ch ++ o2)) by (lens; lia).
+          replace (len (E pre ++ utf8_enc ch ++ o2) + len (E rest ++ [0]) - len (E pre) - cp_len x) with (len (E rest ++ [0])) by (lens; lia).
+          rewrite sub_app. cbn [bind].
+          rewrite blit_gen by (pose proof (len_nonneg (E pre)); lens; lia). cbn [bind rres].
+          replace (len (E pre) + cp_len ch) with (len (E pre ++ utf8_enc ch)) by (lens; lia).
+          replace ((E pre ++ utf8_enc ch ++ o2) ++ (E rest ++ [0]) ++ []) with ((E pre ++ utf8_enc ch) ++ (o2 ++ E rest ++ [0]))
+            by (rewrite app_nil_r, <- !app_assoc; reflexivity).
+          rewrite firstn_len_app.
+          replace (len (E pre ++ utf8_enc ch ++ o2) + len (E rest ++ [0]) - cp_len x + cp_len ch)
+            with (len ((E pre ++ utf8_enc ch) ++ E rest ++ [0])) by (lens; lia).
+          rewrite (app_assoc (E pre ++ utf8_enc ch) (E rest ++ [0])), realloc_shrink.
+          apply repr_intro; auto.
+          - rewrite E_app, E_cons, <- !app_assoc. reflexivity. }
+        (* wider: a new block of the right capacity *)
         replace (E (x :: rest) ++ [0]) with (utf8_enc x ++ (E rest ++ [0])) by (rewrite E_cons, <- app_assoc; reflexivity).
         rewrite sub_prefix. cbn [bind].
         rewrite blit_fresh0 by (pose proof (len_nonneg (E rest ++ [0])); lia). cbn [bind].
